@@ -9,11 +9,13 @@ import (
 	"io"
 	"log"
 	"os"
+	"reflect"
 	"strings"
 	"syscall"
 	"testing"
 	"testing/synctest"
 	"time"
+	"unsafe"
 
 	"verif.local/vfake"
 	"verif.local/vlib"
@@ -314,7 +316,7 @@ func vRunDial(t *testing.T, r0 *vlib.Run, c *dialCase) {
 					}
 				}
 				tr.Add(vfake.Event{Kind: "dial", ID: di - 1, Gen: k + 1, Val: int64(dialStart)})
-				return &DialContext{done: func() error {
+				return vDialContextWithCleanup(func() error {
 					curSock = k
 					tr.Add(vfake.Event{Kind: "close", Gen: k + 1})
 					if restore != nil {
@@ -325,7 +327,7 @@ func vRunDial(t *testing.T, r0 *vlib.Run, c *dialCase) {
 						return err
 					}
 					return nil
-				}}, nil
+				}), nil
 			}
 			ctx, cancel := context.WithCancel(context.Background())
 			defer cancel()
@@ -672,4 +674,26 @@ func TestVerifDial(t *testing.T) {
 		}
 		run(c)
 	}
+}
+
+// vDialContextWithCleanup builds a DialContext whose clean-up closure is fn.
+// The closure lives in an unexported field; it is located by its type
+// (func() error) rather than by name, so that renaming it does not stop the
+// driver from building.
+func vDialContextWithCleanup(fn func() error) *DialContext {
+	dctx := &DialContext{}
+	v := reflect.ValueOf(dctx).Elem()
+	want := reflect.TypeOf(fn)
+	n := 0
+	for i := 0; i < v.NumField(); i++ {
+		f := v.Field(i)
+		if f.Type() == want {
+			reflect.NewAt(f.Type(), unsafe.Pointer(f.UnsafeAddr())).Elem().Set(reflect.ValueOf(fn))
+			n++
+		}
+	}
+	if n != 1 {
+		panic(fmt.Sprintf("verif: DialContext has %d func() error fields, the driver expects exactly one clean-up closure", n))
+	}
+	return dctx
 }
